@@ -45,6 +45,18 @@ def run(ctx):
         for i, t in enumerate(traces):
             t["enc"] = encs[i][0]
         if k == "STEPD":
+            # an alarm level of exactly 0 switches that alarm off (no p-value is BELOW 0, not even one that underflows to 0.0 when the statistic passes ~8.3):
+            # accuracy collapses after a long good stretch, again and again, and only the other alarm may speak
+            for j in range(4 if q else 16):
+                w = ctx.rng.choice([10, 20, 30])
+                pz = {"window_size": w, "alpha_drift": 0.0, "alpha_warning": ctx.rng.choice([0.05, 0.0])} if j % 2 == 0 else \
+                     {"window_size": w, "alpha_drift": 0.003, "alpha_warning": 0.0}
+                seq = []
+                while len(seq) < 900:
+                    seq += [0] * ctx.rng.randint(90, 200) + [1] * ctx.rng.randint(w, 2 * w) + [1 if ctx.rng.random() < 0.7 else 0 for _ in range(20)]
+                t = D.run(k, pz, seq)
+                t["enc"] = ""
+                traces.append(t)
             # epochs of a hundred thousand (and more) correct predictions, then the first errors: the overall accuracy is within 1e-5 of one, not one - the
             # two-proportion test applies as it does anywhere else.  The quiet stretch is folded into one event (STEPD.Quiet, checked against Step in MC_STEPD)
             for j in range(2 if q else 6):
